@@ -1,0 +1,156 @@
+//go:build verif
+
+package vgirpc
+
+// verif_c41.go — ADD-ONLY verification hook for property C41 (every dispatch
+// path releases the Arrow memory it allocates). Two things live here:
+//
+//  1. The table of dispatch path classes (transport x method kind x exit x
+//     feature) that the C41 harness drives, one real call per class. The Coq
+//     model (Model/C41.v) enumerates the same lattice independently and the
+//     theorem C41.paths_exhaustive requires the two lists to be equal, so a
+//     class added or dropped on either side breaks the proof at `make`.
+//  2. The run-time view of the leak-checking allocator. In a plain `verif`
+//     build defaultAllocator() is the GoAllocator (alloc.go, compile-time
+//     choice, no indirection to swap), so the view reports "disabled"; the
+//     companion file verif_c41_leak.go (tags verif && leakcheck) installs a
+//     counting allocator underneath the shared CheckedAllocator.
+
+// VerifC41Transports, Kinds, Exits, Features are the one-byte codes of the four
+// dimensions. The order is the enumeration order of the class list.
+const (
+	VerifC41Transports = "PH"                 // pipe, HTTP
+	VerifC41Kinds      = "UVRX"               // unary valued, unary void, producer, exchange
+	VerifC41Exits      = "oubvepnTPNDcfrwCLt" // see VerifC41Valid
+	VerifC41Features   = "nlheiscj"           // none, logs, header, ext-out, ext-in, shm, cast, ext-in+cast
+)
+
+// VerifC41Valid says whether the dispatch code has a path for the class.
+//
+//	exits:  o success            u unknown method      b bad params
+//	        v version refusal    e handler/init error  p handler/init panic
+//	        n nil stream result  T turn error (after emit)  P turn panic (after emit)
+//	        N no data emitted    D double emit         c client cancel
+//	        f cast failure       r pointer resolve failure   w output write error
+//	        C response cap       L producer batch limit      t bad state token
+//	features: n none  l client logs  h stream header  e external storage (output
+//	        externalised)  i external input pointer  s shared memory  c input cast
+//	        j external input pointer whose batch then needs the cast
+func VerifC41Valid(t, k, e, f byte) bool {
+	if (t != 'P' && t != 'H') || (k != 'U' && k != 'V' && k != 'R' && k != 'X') {
+		return false
+	}
+	stream := k == 'R' || k == 'X'
+	// features
+	switch f {
+	case 'n', 'l':
+	case 'h':
+		if !stream {
+			return false
+		}
+	case 'e':
+		if k == 'V' {
+			return false
+		}
+	case 'i':
+		if !(t == 'H' || k == 'X') {
+			return false
+		}
+	case 's':
+		if t != 'P' {
+			return false
+		}
+	case 'c', 'j':
+		if k != 'X' {
+			return false
+		}
+	default:
+		return false
+	}
+	// exits
+	switch e {
+	case 'o', 'u', 'b', 'v', 'e', 'p':
+		return true
+	case 'n', 'T', 'P', 'N', 'D', 'c', 'w':
+		return stream
+	case 'f':
+		return k == 'X'
+	case 'r':
+		if f == 'i' || f == 'j' {
+			return true
+		}
+		return f == 's' && k != 'R'
+	case 'C':
+		return t == 'H'
+	case 'L':
+		return t == 'H' && k == 'R'
+	case 't':
+		return t == 'H' && stream
+	}
+	return false
+}
+
+// VerifC41Classes lists every valid class as a 4-byte code t,k,e,f in
+// lexicographic order of the dimension tables above.
+func VerifC41Classes() []string {
+	var out []string
+	for i := 0; i < len(VerifC41Transports); i++ {
+		for j := 0; j < len(VerifC41Kinds); j++ {
+			for m := 0; m < len(VerifC41Exits); m++ {
+				for n := 0; n < len(VerifC41Features); n++ {
+					t, k, e, f := VerifC41Transports[i], VerifC41Kinds[j], VerifC41Exits[m], VerifC41Features[n]
+					if VerifC41Valid(t, k, e, f) {
+						out = append(out, string([]byte{t, k, e, f}))
+					}
+				}
+			}
+		}
+	}
+	return out
+}
+
+// verifC41Probe is set by verif_c41_leak.go. It returns the outstanding bytes
+// of the shared CheckedAllocator, the number of live allocations, and the
+// running total of allocations ever made through it.
+var verifC41Probe func() (bytes int64, live int64, total int64)
+
+// verifC41Report is set by verif_c41_leak.go: for every allocation still live
+// whose sequence number is > since, its size and the vgirpc frames of the
+// call stack that made it.
+var verifC41Report func(since int64) string
+
+// VerifC41LeakEnabled reports whether this binary was built with -tags leakcheck.
+func VerifC41LeakEnabled() bool { return verifC41Probe != nil }
+
+// VerifC41Outstanding reads the allocator (zeros when leakcheck is off).
+func VerifC41Outstanding() (bytes int64, live int64, total int64) {
+	if verifC41Probe == nil {
+		return 0, 0, 0
+	}
+	return verifC41Probe()
+}
+
+// VerifC41Report describes the live allocations made after allocation number
+// `since` (the third result of VerifC41Outstanding); empty when leakcheck is off.
+func VerifC41Report(since int64) string {
+	if verifC41Report == nil {
+		return ""
+	}
+	return verifC41Report(since)
+}
+
+func init() {
+	verifConstProviders = append(verifConstProviders, func() []VerifConst {
+		all := ""
+		for _, c := range VerifC41Classes() {
+			all += c
+		}
+		return []VerifConst{
+			verifBytes("c41_transports", VerifC41Transports),
+			verifBytes("c41_kinds", VerifC41Kinds),
+			verifBytes("c41_exits", VerifC41Exits),
+			verifBytes("c41_features", VerifC41Features),
+			verifBytes("c41_path_classes", all),
+		}
+	})
+}
